@@ -43,6 +43,19 @@ func (v *FnVC) calleeName(c *ssa.CallCommon) (name string, fn *ssa.Function) {
 	if f := c.StaticCallee(); f != nil {
 		return v.W.FuncQualName(f), f
 	}
+	// call of a function-typed parameter or captured variable: contract "<enclosing function>#<name>$call"
+	switch x := c.Value.(type) {
+	case *ssa.Parameter:
+		if _, isF := x.Type().Underlying().(*types.Signature); isF {
+			return fmt.Sprintf("%s#%s$call", v.Fn.String(), x.Name()), nil
+		}
+	case *ssa.UnOp:
+		if fv, ok := x.X.(*ssa.FreeVar); ok && x.Op == token.MUL {
+			if _, isF := deref(fv.Type()).Underlying().(*types.Signature); isF {
+				return fmt.Sprintf("%s#%s$call", v.Fn.String(), fv.Name()), nil
+			}
+		}
+	}
 	// call through a function-typed struct field: contract "(pkg.T).field$field" (assumed for every value stored there)
 	if ld, ok := c.Value.(*ssa.UnOp); ok && ld.Op == token.MUL {
 		if fa, ok := ld.X.(*ssa.FieldAddr); ok {
@@ -100,6 +113,13 @@ func (v *FnVC) encodeCall(ins ssa.Instruction, c *ssa.CallCommon, res ssa.Value)
 	}
 	name, fn := v.calleeName(c)
 	args := v.callArgs(c)
+	if name == "(*sync.Once).Do" && len(args) == 2 {
+		if mc, ok := args[1].(*ssa.MakeClosure); ok {
+			v.encodeOnceDo(ins, args[0], mc)
+			v.bindResults(res, nil)
+			return
+		}
+	}
 	var argTerms []Term
 	for _, a := range args {
 		argTerms = append(argTerms, v.val(a))
@@ -235,6 +255,12 @@ func (v *FnVC) applyContract(ins ssa.Instruction, contract *FuncContract, name s
 	if len(names) != len(args) {
 		v.fail("call to %s: %d parameter names for %d arguments", name, len(names), len(args))
 	}
+	if strings.HasSuffix(name, "$call") {
+		// contract of a call through a function-typed variable of this function: it may mention the caller's names
+		for k, t := range v.baseEnv().vars {
+			env.vars[k] = t
+		}
+	}
 	for k, n := range names {
 		env.vars[n] = args[k]
 	}
@@ -250,6 +276,9 @@ func (v *FnVC) applyContract(ins ssa.Instruction, contract *FuncContract, name s
 	// preconditions
 	short := shortCallee(name)
 	for k, c := range contract.Requires {
+		if v.C != nil && v.C.File == "(literal scan)" {
+			break // functions visited only by the literal scan are not held to their callees' preconditions
+		}
 		f := v.evalBool(c.E, env)
 		v.oblige(fmt.Sprintf("pre:%s.%d", short, k), f, fmt.Sprintf("precondition of %s: %s", short, c.Text), ins.Pos())
 	}
@@ -353,6 +382,10 @@ func (v *FnVC) havocLoc(x Expr, env *Env, st *State) {
 					}
 				}
 			}
+		}
+		if bp, ok := v.lvalueBase(e.X, env); ok {
+			v.havocFieldAt(bp, e.Sel, env, st)
+			return
 		}
 		xt := v.evalTerm(e.X, env)
 		v.havocFieldAt(xt, e.Sel, env, st)
@@ -526,6 +559,9 @@ func (v *FnVC) modKeysOf(x Expr, contract *FuncContract, fn *ssa.Function) []str
 			for _, fvr := range fn.FreeVars {
 				if "&"+fvr.Name() == name {
 					return fvr.Type()
+				}
+				if fvr.Name() == name {
+					return deref(fvr.Type()) // the captured variable itself
 				}
 			}
 		}
@@ -1091,6 +1127,10 @@ func (v *FnVC) frameTargets(x Expr, env *Env, all map[string]bool, refs map[stri
 				}
 			}
 		}
+		if bp, ok := v.lvalueBase(e.X, env); ok {
+			addField(deref(bp.T), e.Sel, bp.S)
+			return
+		}
 		xt := v.evalTerm(e.X, env)
 		ref := xt.S
 		if xt.Sort == "Iface" {
@@ -1300,4 +1340,36 @@ func (v *FnVC) callModRefs(c *ssa.CallCommon) map[string]ssa.Value {
 		delete(out, k)
 	}
 	return out
+}
+
+// encodeOnceDo models sync.Once.Do(f) for a closure literal f: the closure runs (its contract is applied) iff the
+// Once has not fired yet; afterwards it has fired. Ghost field: sync.Once.done (declared in prelude/sync.spec).
+func (v *FnVC) encodeOnceDo(ins ssa.Instruction, once ssa.Value, mc *ssa.MakeClosure) {
+	o := v.val(once)
+	key := v.regKey("G:sync_Once.done", "(Array Int Bool)")
+	done := v.define("oncedone", "Bool", fmt.Sprintf("(select %s %s)", v.heapGet(v.cur, key), o.S))
+	before := v.cur
+	after := before.clone()
+	v.cur = after
+	saveReach := v.reach[v.curBlock]
+	v.reach[v.curBlock] = v.define("oncereach", "Bool", fmt.Sprintf("(and %s (not %s))", saveReach, done))
+	cc := &ssa.CallCommon{Value: mc}
+	v.encodeCall(ins, cc, nil)
+	ranReach := v.reach[v.curBlock]
+	// executions in which the closure ran and completed, or did not run at all
+	v.reach[v.curBlock] = v.define("reach_n", "Bool", fmt.Sprintf("(or (and %s %s) %s)", saveReach, done, ranReach))
+	v.cur = v.mergeStates([]mergePart{{cond: fmt.Sprintf("(not %s)", done), st: after}, {cond: "true", st: before}})
+	v.heapSet(v.cur, key, fmt.Sprintf("(store %s %s true)", v.heapGet(v.cur, key), o.S))
+}
+
+// lvalueBase: for modifies targets x.f where x is a captured variable of struct type, the pointer to that struct.
+func (v *FnVC) lvalueBase(x Expr, env *Env) (Term, bool) {
+	if id, ok := x.(*EIdent); ok {
+		if p, ok := env.vars["&"+id.Name]; ok && p.T != nil {
+			if _, isS := structOf(deref(p.T)); isS {
+				return p, true
+			}
+		}
+	}
+	return Term{}, false
 }
